@@ -211,14 +211,14 @@ func c15O2(ctx context.Context, request []byte, next core.NextIOHandler) ([]byte
 	return c15IO("o2", ctx, request, next)
 }
 
-// a two-sided plugin (both an invoke and an IO handler)
-type c15Plugin struct{}
+// a two-sided plugin (both an invoke and an IO handler); two instances of the one type
+type c15Plugin struct{ inv, io string }
 
-func (*c15Plugin) IOHandler(ctx context.Context, request []byte, next core.NextIOHandler) ([]byte, error) {
-	return c15IO("po", ctx, request, next)
+func (p *c15Plugin) IOHandler(ctx context.Context, request []byte, next core.NextIOHandler) ([]byte, error) {
+	return c15IO(p.io, ctx, request, next)
 }
-func (*c15Plugin) InvokeHandler(ctx context.Context, name string, args []interface{}, next core.NextInvokeHandler) ([]interface{}, error) {
-	return c15Invoke("pi", ctx, name, args, next)
+func (p *c15Plugin) InvokeHandler(ctx context.Context, name string, args []interface{}, next core.NextInvokeHandler) ([]interface{}, error) {
+	return c15Invoke(p.inv, ctx, name, args, next)
 }
 
 // one-sided plugin objects (method value `Handler`)
@@ -228,7 +228,8 @@ func (*c15InvPlugin) Handler(ctx context.Context, name string, args []interface{
 	return c15Invoke("qi", ctx, name, args, next)
 }
 
-var c15ThePlugin = &c15Plugin{}
+var c15ThePlugin = &c15Plugin{"pi", "po"}
+var c15TheTwin = &c15Plugin{"ti", "to"} // another plugin object of the same type
 var c15TheInvPlugin = &c15InvPlugin{}
 
 func c15Handler(id string) core.PluginHandler {
@@ -245,6 +246,8 @@ func c15Handler(id string) core.PluginHandler {
 		return core.IOHandler(c15O2)
 	case "P":
 		return c15ThePlugin
+	case "T":
+		return c15TheTwin
 	case "Q":
 		return c15TheInvPlugin
 	}
@@ -259,6 +262,9 @@ func c15Split(hs []string) (inv []string, io []string) {
 		case "P":
 			inv = append(inv, "pi")
 			io = append(io, "po")
+		case "T":
+			inv = append(inv, "ti")
+			io = append(io, "to")
 		case "Q":
 			inv = append(inv, "qi")
 		case "o1", "o2":
@@ -374,7 +380,22 @@ func c15Run(t *tr.Writer, id int, c c15Case) {
 		outer, inner = "io", "invoke"
 	}
 	Watch(id, tr.Rec{"side": c.Side}, c)
-	t.Reset(id, tr.Rec{"outer": outer, "inner": inner, "beh": c.Beh, "side": c.Side, "conc": c.Conc, "input": c})
+	// twin: the history installs both plugin objects of the one type and removes one of them (Unuse tells
+	// handlers apart by code pointer, which method values of two objects of one type share)
+	usedP, usedT, twin := false, false, false
+	for _, op := range c.Ops {
+		for _, h := range op.Hs {
+			switch {
+			case op.Op == "use" && h == "P":
+				usedP = true
+			case op.Op == "use" && h == "T":
+				usedT = true
+			case op.Op == "unuse" && (h == "P" && usedT || h == "T" && usedP):
+				twin = true
+			}
+		}
+	}
+	t.Reset(id, tr.Rec{"outer": outer, "inner": inner, "beh": c.Beh, "side": c.Side, "conc": c.Conc, "twin": twin, "input": c})
 	side := c15NewSide(c.Side)
 	if c.Conc > 0 {
 		c15Concurrent(st, side, c)
@@ -458,7 +479,7 @@ func c15Concurrent(st *c15State, side c15Side, c c15Case) {
 	wg.Add(1)
 	go func() {
 		defer wg.Done()
-		sets := c15HandlerSets()
+		sets := c15HandlerSets()[:14] // without the twin plugin object: see the known finding on Unuse
 		for i := 0; i < c.N; i++ {
 			select {
 			case <-stop:
@@ -508,6 +529,7 @@ func c15HandlerSets() [][]string {
 	return [][]string{
 		{"i1"}, {"i2"}, {"i3"}, {"o1"}, {"o2"}, {"P"}, {"Q"},
 		{"i1", "i2"}, {"i2", "i1"}, {"i1", "i1"}, {"i1", "o1"}, {"P", "i1"}, {"o1", "o2"}, {"o2", "P", "i3"},
+		{"T"}, {"P", "T"},
 	}
 }
 
@@ -528,10 +550,10 @@ func c15Alphabet() []c15Op {
 }
 
 var c15Behs = []map[string]string{
-	{"i1": "pass", "i2": "pass", "i3": "pass", "o1": "pass", "o2": "pass", "pi": "pass", "po": "pass", "qi": "pass"},
-	{"i1": "alter", "i2": "pass", "i3": "alter", "o1": "alter", "o2": "pass", "pi": "alter", "po": "alter", "qi": "pass"},
-	{"i1": "pass", "i2": "alter", "i3": "short", "o1": "pass", "o2": "short", "pi": "pass", "po": "alter", "qi": "alter"},
-	{"i1": "alter", "i2": "short", "i3": "pass", "o1": "short", "o2": "alter", "pi": "alter", "po": "pass", "qi": "pass"},
+	{"i1": "pass", "i2": "pass", "i3": "pass", "o1": "pass", "o2": "pass", "pi": "pass", "po": "pass", "qi": "pass", "ti": "pass", "to": "pass"},
+	{"i1": "alter", "i2": "pass", "i3": "alter", "o1": "alter", "o2": "pass", "pi": "alter", "po": "alter", "qi": "pass", "ti": "pass", "to": "alter"},
+	{"i1": "pass", "i2": "alter", "i3": "short", "o1": "pass", "o2": "short", "pi": "pass", "po": "alter", "qi": "alter", "ti": "alter", "to": "pass"},
+	{"i1": "alter", "i2": "short", "i3": "pass", "o1": "short", "o2": "alter", "pi": "alter", "po": "pass", "qi": "pass", "ti": "short", "to": "pass"},
 }
 
 func runC15(a Args) tr.Summary {
